@@ -546,16 +546,16 @@ def rB : Reg := (rA.unregister cA).1
 
 /-- closed facts about the model on these: `cA` is admitted to the empty registry, cannot be
     unregistered from it, can be unregistered from `rA`, and not a second time -/
-private theorem cA_facts : isOk (({} : Reg).register cA).2 = true ∧ isErr (({} : Reg).unregister cA).2 .msg = true ∧
+theorem cA_facts : isOk (({} : Reg).register cA).2 = true ∧ isErr (({} : Reg).unregister cA).2 .msg = true ∧
     isOk (rA.unregister cA).2 = true ∧ isErr (rB.unregister cA).2 .msg = true ∧ rB.collectors.isEmpty = true := by
   decide +kernel
 
-private theorem isOk_eq {x : Except RErr Unit} (h : isOk x = true) : x = .ok () := by
+theorem isOk_eq {x : Except RErr Unit} (h : isOk x = true) : x = .ok () := by
   cases x with
   | ok u => rfl
   | error e => simp [isOk] at h
 
-private theorem isErr_eq {x : Except RErr Unit} {e : RErr} (h : isErr x e = true) : x = .error e := by
+theorem isErr_eq {x : Except RErr Unit} {e : RErr} (h : isErr x e = true) : x = .error e := by
   cases x with
   | ok u => simp [isErr] at h
   | error e' =>
@@ -563,28 +563,28 @@ private theorem isErr_eq {x : Except RErr Unit} {e : RErr} (h : isErr x e = true
     cases e <;> cases e' <;> first | rfl | exact absurd h (by decide)
 
 /-- the specification on the example: register / unregister of collector 0 over `{}`, `rA`, `rB` -/
-private theorem specApply_reg_cA : RM.specApply [cA] {} (.register 0) = (rA, "ok") := by
+theorem specApply_reg_cA : RM.specApply [cA] {} (.register 0) = (rA, "ok") := by
   have : ({} : Reg).register cA = (rA, .ok ()) := Prod.ext rfl (isOk_eq cA_facts.1)
   simp [RM.specApply, this]
-private theorem specApply_unreg_empty : RM.specApply [cA] {} (.unregister 0) = ({}, "err:Msg") := by
+theorem specApply_unreg_empty : RM.specApply [cA] {} (.unregister 0) = ({}, "err:Msg") := by
   have h := isErr_eq cA_facts.2.1
   have : ({} : Reg).unregister cA = ({}, .error .msg) := Prod.ext (unregister_fail_noop _ _ _ h) h
   simp [RM.specApply, this, RM.showErr]
-private theorem specApply_unreg_rA : RM.specApply [cA] rA (.unregister 0) = (rB, "ok") := by
+theorem specApply_unreg_rA : RM.specApply [cA] rA (.unregister 0) = (rB, "ok") := by
   have : rA.unregister cA = (rB, .ok ()) := Prod.ext rfl (isOk_eq cA_facts.2.2.1)
   simp [RM.specApply, this]
-private theorem specApply_unreg_rB : RM.specApply [cA] rB (.unregister 0) = (rB, "err:Msg") := by
+theorem specApply_unreg_rB : RM.specApply [cA] rB (.unregister 0) = (rB, "err:Msg") := by
   have h := isErr_eq cA_facts.2.2.2.1
   have : rB.unregister cA = (rB, .error .msg) := Prod.ext (unregister_fail_noop _ _ _ h) h
   simp [RM.specApply, this, RM.showErr]
 /-- the pre-check on the example: fails on `{}` and `rB`, finds the collector in `rA` -/
-private theorem unregFails_empty : RM.unregFails [cA] {} 0 = true := by
+theorem unregFails_empty : RM.unregFails [cA] {} 0 = true := by
   rw [unregFails_iff, specApply_unreg_empty]; decide
-private theorem unregFails_rA : RM.unregFails [cA] rA 0 = false := by
+theorem unregFails_rA : RM.unregFails [cA] rA 0 = false := by
   have := unregFails_iff [cA] rA 0
   rw [specApply_unreg_rA] at this
   simpa using this
-private theorem unregFails_rB : RM.unregFails [cA] rB 0 = true := by
+theorem unregFails_rB : RM.unregFails [cA] rB 0 = true := by
   rw [unregFails_iff, specApply_unreg_rB]; decide
 
 open Prom.Conc in
